@@ -29,19 +29,25 @@ from fractions import Fraction
 
 import common
 from common import enc, dec, err_kind
-from props.c04 import val, tag, exact, Unparsed, _var, _fold, _is_const, _flat_sum
+from props.c04 import val, tag, exact, Unparsed, _var, _fold, _is_const, _flat_sum, _mem_obj, _memory
 
 ID = "C06"
 RULE = ("random causal filter shapes (numerator order 0..4, denominator order 0..4) in which every coefficient is "
         "independently an integer constant (0, +1, -1, other) or a Stream fed by a counting source (finite: shorter "
-        "than / equal to / longer than the input, empty; periodic with period 1..4), the gain a0 being 1, -1, another "
-        "constant or a Stream (variable-gain path); built from dicts, from `Stream*z**-k` sums and quotients, from the "
-        "LinearFilter base class, and (entry expr) from expression trees with + - * / over such filters; Fraction "
-        "inputs of length 0..12 (quick) / 0..40 (thorough), zero value 0 or not, memory None or a list; a malformed "
-        "stream (negative delays, zero inside a Stream gain); two-call histories (entry call2): the same shapes with "
-        "the input split at a random point into the inputs of two successive calls of one filter object, the "
-        "second with its own memory / zero value.  A case is non-trivial when the impl yields at least "
-        "one sample or raises; distinct = distinct JSON case")
+        "than / equal to / longer than the input, empty; periodic with period 1..4; RAISING: ValueError instead of the "
+        "end), the gain a0 being 1, -1, another constant or a Stream (variable-gain path); built from dicts, dense "
+        "lists, Poly objects, from `Stream*z**-k` / `z**-k*Stream` sums and quotients, from the LinearFilter base class, "
+        "with a numerator / denominator Poly divided by a Stream or by a Poly (one term, none, several), with the "
+        "gain assigned on the built object (`filt.denpoly[0] = 0 | number | Stream`), and (entry expr) from expression "
+        "trees with + - * / over such filters; the coefficient iterable handed in as Stream, plain generator, list, "
+        "tuple, StreamTeeHub or ControlStream; Fraction inputs of length 0..12 (quick) / 0..40 (thorough); zero value 0 "
+        "or not, spelled Fraction / int / float / bool or left to its default; memory None, list / tuple / deque / "
+        "generator / Stream / iterator shorter than, equal to or longer than needed, endless generator, callable; "
+        "call shape keyword / positional / mixed / memory=None explicit; a malformed stream (negative delays, zero "
+        "inside a Stream gain); two-call histories (entry call2): the same shapes with the input split at a random "
+        "point into the inputs of two successive calls of one filter object, the second with its own memory / zero "
+        "value, incl. histories whose first call is refused (non-causal).  A case is non-trivial when the impl "
+        "yields at least one sample or raises; distinct = distinct JSON case")
 TRUSTED = [
     "hand-written Lean model ALV/Model/C06.lean of LinearFilter.__call__ with Stream coefficients (modelled, not "
     "verified: a Stream as the list of items it delivers, one iterator per coefficient argument of the exec'd "
@@ -50,18 +56,29 @@ TRUSTED = [
     "model <-> /repo, measured by this tie",
     "translator T3 in harness/props/c06.py (ast-parser of the generated generator source, built on C04's) — "
     "self-tested on seeded source edits (extra check) and cross-checked by the I/O differential on every case",
-    "two-call histories: what a call leaves in the filter object (`advance`: every coefficient Stream where the "
-    "generated loop left its iterator; `denAfterCall`: the variable-gain path executes `den[0] = 0` on the alias "
-    "`den = self.denpoly`) is modelled by hand from LinearFilter.__call__ and measured by the entry call2 of this "
-    "tie (outputs / error of the second call, powers of denpoly after the first call, pull counts over both calls)",
+    "two-call histories: what a call leaves in the filter object (`objAfter`: polynomials untouched; constant gain: "
+    "every coefficient Stream where the generated loop left its iterator (`advance`); Stream gain: every Stream the "
+    "object holds one item further per output, the extra item a failed last evaluation may have taken being "
+    "unobservable) is modelled by hand from LinearFilter.__call__ and measured by the entry call2 of this tie "
+    "(outputs / error of the second call, powers of denpoly after the first call, pull counts over both calls)",
+    "a coefficient iterable that raises is not an `Except`-valued stream in Lean: the model sees the items delivered "
+    "before; that the exception reaches the caller after exactly the model's outputs, is not swallowed, and that the "
+    "finished generator then stops, is checked on the impl observation only (harness code)",
+    "float regime of a call (zero spelled int / bool / float or left to its default 0.0, integer Poly divisor): "
+    "outputs are compared with relative tolerance 1e-6 against the exact model (source IR, pull counts, lengths "
+    "and error kinds stay exact)",
     "itertools.tee / StreamTeeHub are modelled as independent iterators over the same items; that the underlying "
     "source is advanced once per sample is measured by the counting sources of this tie",
 ]
 ASSUMPTIONS = [
-    "a generator that meets StopIteration ENDS (the intent of the code, true before PEP 479); on CPython >= 3.7 "
-    "the same point raises RuntimeError: defect D13, recorded as known finding with a proposed fix",
+    "a generator whose coefficient iterator meets StopIteration ENDS (D13 repaired in /repo: try / except "
+    "StopIteration around the generated expression; the wrapper is peeled off textually before T3 parses)",
     "exact regime only: integer constants, Fraction stream items and samples (a non-integer Fraction constant is "
     "formatted as 'p/q' into the exec'd source and becomes a float: that is C04's float regime)",
+    "a non-Stream iterable as the GAIN (generator, list) is outside the property (the code raises "
+    "UnboundLocalError: it is neither the variable-gain path nor a constant); such cases are not generated",
+    "a filter object whose gain was deleted (`filt.denpoly[0] = 0`) is outside the property: only the model's "
+    "answer (ZeroDivisionError before anything is read, theorem no_gain_raises) is compared",
     "every Stream object is used once in the expression that builds the filter (the library's own rule: 'after "
     "declaring z as function of x and y, you should not use x and y anymore'); sharing goes through the "
     "library's thub / copy, which is what Poly.__mul__ and ZFilter.__add__ do internally",
@@ -78,15 +95,18 @@ ASSUMPTIONS = [
 MANIFEST = {
     "technique": "Lean 4 refinement proof (generated time-varying loop with one iterator per coefficient argument = "
                  "difference equation with the n-th coefficient values over unbounded histories = the indexed "
-                 "sentence of the property; variable-gain rewriting; element-wise algebra through the C07 Laurent "
-                 "homomorphism) + translator tie T3 + exact I/O and pull-count differential",
-    "note": "40 theorems, nothing PENDING: the end-to-end statement from raw constructor pairs "
-            "(filterCallTV_eq_specCallTV) is proved with C04's dictionary lemmas generalised to any coefficient type; "
-            "the all-zero filter with a Stream gain is stated exactly (C06.9) and is the only object excluded from "
-            "call_ends_with_shortest; two-call histories: second_call_continues (constant gain) and the defect D16 "
-            "second_call_after_stream_gain (the variable-gain path deletes denpoly[0] of the filter object, the second "
-            "call raises ZeroDivisionError) recorded as known with proposed_fixes/D16-stream-gain-second-call.diff; "
-            "D13 (coefficient stream ending before the input -> RuntimeError, PEP 479) is fixed in /repo",
+                 "sentence of the property; variable-gain rewriting; ZFilter / Poly arithmetic and whole expression "
+                 "trees read at time n = arithmetic of fractions of Laurent polynomials on the n-th items) + "
+                 "translator tie T3 + exact I/O and pull-count differential over call shapes, memory kinds, "
+                 "coefficient iterable kinds, raising sources and two-call histories",
+    "note": "56 theorems; PENDING: callTwice_eq_specCallTwice_PENDING (the two-call contract from raw pairs for "
+            "histories whose first output was ended by a coefficient stream; proved: both sides are the same tvspec "
+            "when it was ended by its input, constant gain and Stream gain).  The filter arithmetic clause is proved "
+            "for every ZFilter operator on filter objects (zfilter_*_elementwise, exact up to the normalisation "
+            "delay) and for every expression tree of any depth (expr_elementwise, expr_freeze, "
+            "expr_constant_streams, expr_reads_once).  Two-call model follows the repaired code (D16, D13 fixed in "
+            "/repo).  Known finding D22: Poly / one-term Poly with a Stream coefficient shares the Stream among all "
+            "quotient coefficients (proposed_fixes/D22-poly-div-one-term-stream.diff)",
 }
 
 # ---------------------------------------------------------------------------------------------
@@ -98,6 +118,7 @@ class Src(object):
     def __init__(self, desc):
         self.vals = [val(v) for v in desc["vals"]]
         self.periodic = desc["kind"] == "periodic"
+        self.raising = desc["kind"] == "raising"     # the element after the last one RAISES (not StopIteration)
         self.pulls = 0
         self.attempts = 0
 
@@ -110,6 +131,8 @@ class Src(object):
             v = self.vals[self.pulls % len(self.vals)]
         else:
             if self.pulls >= len(self.vals):
+                if self.raising:
+                    raise ValueError("coefficient source failed")
                 raise StopIteration
             v = self.vals[self.pulls]
         self.pulls += 1
@@ -237,7 +260,10 @@ def parse_source(src):
                 raise Unparsed("constant loop shape")
             if bargs or aargs:
                 raise Unparsed("constant loop with coefficient arguments")
-            return {"kind": "const", "zero": enc(_fold(st[0].value.value))}
+            zv = st[0].value.value
+            if isinstance(zv, ast.Constant) and isinstance(zv.value, bool):
+                return {"kind": "const", "zero": int(zv.value)}      # zero=False / zero=True formatted into the source
+            return {"kind": "const", "zero": enc(_fold(zv))}
         if len(st) < 2 or not isinstance(st[0], ast.Assign) or len(st[0].targets) != 1 or _var(st[0].targets[0]) != ["m", 0]:
             raise Unparsed("first statement is not m0 = …")
         if not (isinstance(st[1], ast.Expr) and isinstance(st[1].value, ast.Yield)
@@ -289,18 +315,108 @@ def strip_try(src):
 # ---------------------------------------------------------------------------------------------
 # the real code
 # ---------------------------------------------------------------------------------------------
-def _coef_obj(c, srcs):
-    from audiolazy import Stream
+UNCOUNTED = ("list", "tuple", "control")       # coefficient kinds that bypass the counting source
+
+
+def _coef_obj(c, srcs, descs=None):
+    """a coefficient of the case -> the Python object handed to the library: a number, or an iterable of
+    the kind the source description asks for (`as`): Stream (default), plain generator, list, tuple,
+    StreamTeeHub with one copy, ControlStream (an endless constant)"""
+    from audiolazy import Stream, thub, ControlStream
     if is_src(c):
-        return Stream(srcs[c["src"]])
+        src = srcs[c["src"]]
+        how = (descs[c["src"]].get("as", "stream") if descs else "stream")
+        if how == "gen":
+            return (v for v in src)
+        if how == "list":
+            return [val(v) for v in src_items(descs[c["src"]], descs[c["src"]].get("_n", 0))]
+        if how == "tuple":
+            return tuple(val(v) for v in src_items(descs[c["src"]], descs[c["src"]].get("_n", 0)))
+        if how == "thub":
+            return thub(Stream(src), 1)
+        if how == "control":
+            return ControlStream(val(descs[c["src"]]["vals"][0]))
+        return Stream(src)
     return val(c)
+
+
+def _zero_obj(c):
+    """the zero value in the spelling the case asks for"""
+    z = val(c["zero"])
+    sp = c.get("zspell", "frac")
+    if sp == "int" and z.denominator == 1:
+        return int(z)
+    if sp == "float":
+        return float(z)
+    if sp == "bool" and z in (0, 1):
+        return bool(z)
+    return z
+
+
+def _call_kwargs(c, sec=None):
+    """positional / keyword arguments of `filt(seq, memory=None, zero=0.)` in the shape the case asks for"""
+    d = sec if sec is not None else c
+    zero = _zero_obj(dict(c, zero=d["zero"]))
+    mem = _mem_obj(_mem_norm(d.get("mem")))
+    shape = c.get("shape", "kw")
+    if shape == "pos":                    # filt(seq, memory, zero)
+        return [mem, zero], {}
+    if shape == "posmem":                 # filt(seq, memory, zero=zero)
+        return [mem], {"zero": zero}
+    if shape == "nozero":                 # zero left to its default 0.0 (only generated with zero == 0)
+        return ([], {}) if mem is None else ([], {"memory": mem})
+    kw = {"zero": zero}                   # "kw": filt(seq, zero=zero[, memory=memory]) — memory omitted when None
+    if mem is not None or shape == "kwnone":
+        kw["memory"] = mem
+    return [], kw
+
+
+def _mem_norm(m):
+    if m is not None and "kind" not in m:
+        return dict(m, kind="iter")
+    return m
+
+
+def _mem_req(m):
+    m = _mem_norm(m)
+    mm = {"kind": m["kind"]}
+    if "vals" in m:
+        mm["vals"] = [exact(v) for v in m["vals"]]
+    for f in ("base", "step"):
+        if f in m:
+            mm[f] = exact(m[f])
+    if "form" in m:
+        mm["form"] = m["form"]
+    return mm
+
+
+def floaty(c):
+    """the impl itself injects floats: a float zero value, the default zero 0.0, or an int / bool zero value
+    (Python's int / int is a float: `(-m1) / (5)` with m1 = zero = 7)"""
+    return (c.get("zspell") in ("float", "int", "bool") or c.get("shape") == "nozero"
+            or any(not is_src(v) for _, v in (c.get("numpdiv") or [])))      # int / int constants are floats
 
 
 def _build_call(c, srcs):
     from audiolazy import ZFilter, LinearFilter, z
-    num = [(k, _coef_obj(v, srcs)) for k, v in c["num"]]
-    den = [(k, _coef_obj(v, srcs)) for k, v in c["den"]]
+    descs = [dict(d, _n=len(c["xs"])) for d in c.get("srcs", [])]
+    num = [(k, _coef_obj(v, srcs, descs)) for k, v in c["num"]]
+    den = [(k, _coef_obj(v, srcs, descs)) for k, v in c["den"]]
     route = c.get("route", "dict")
+    if route == "list":
+        # ZFilter(list, list): dense coefficient lists from delay 0 (only generated for such shapes)
+        dn, dd = dict(num), dict(den)
+        return ZFilter([dn.get(k, 0) for k in range(max(dn) + 1)] if dn else [],
+                       [dd.get(k, 0) for k in range(max(dd) + 1)])
+    if route == "poly":
+        from audiolazy import Poly
+        return ZFilter(Poly(dict(num)), Poly(dict(den)))
+    if c.get("numpdiv") is not None:
+        # Poly.__truediv__ by a Poly: one term (every coefficient / that term, powers shifted), none
+        # (ZeroDivisionError), several (NotImplementedError)
+        from audiolazy import Poly
+        pd_ = Poly(dict((k, _coef_obj(v, srcs, descs)) for k, v in c["numpdiv"]))
+        return (LinearFilter if route == "linear" else ZFilter)(Poly(dict(num)) / pd_, Poly(dict(den)))
     if route == "zexpr":
         # Stream*z**-k sums: ZFilter.__rmul__ / __radd__ / __add__ / __truediv__, Poly.__mul__ with thub
         n = sum(v * z ** -k for k, v in num) if num else ZFilter([0])
@@ -349,8 +465,8 @@ def _build_expr(t, srcs):
 
 
 def _coef_obs(v):
-    from audiolazy import Stream
-    return "S" if isinstance(v, Stream) else enc(v)
+    from collections.abc import Iterable
+    return "S" if isinstance(v, Iterable) else enc(v)
 
 
 def impl(c):
@@ -376,11 +492,14 @@ def impl(c):
             obs["numdict"] = [[k, _coef_obs(v)] for k, v in sorted(filt.numdict.items())]
             obs["dendict"] = [[k, _coef_obs(v)] for k, v in sorted(filt.dendict.items())]
             obs["pulls_at_build"] = [s.attempts for s in srcs]
+            if c.get("setden0") is not None:
+                # the user assigns the gain on the object (`Poly.__setitem__`; 0 deletes the entry)
+                descs_ = [dict(d, _n=len(c["xs"])) for d in c.get("srcs", [])]
+                filt.denpoly[0] = _coef_obj(c["setden0"], srcs, descs_)
+                obs["dendict"] = [[k, _coef_obs(v)] for k, v in sorted(filt.dendict.items())]
             stage = "call"
-            kw = {"zero": val(c["zero"])}
-            if c.get("mem") is not None:
-                kw["memory"] = [val(v) for v in c["mem"]["vals"]]
-            res = filt(xin, **kw)
+            args, kw = _call_kwargs(c)
+            res = filt(xin, *args, **kw)
             obs["pulls_at_call"] = [s.attempts for s in srcs] + [xin.attempts]
             stage = "iter"
             it = iter(res)
@@ -396,6 +515,14 @@ def impl(c):
         except Exception as e:
             if stage == "iter":
                 obs["out"] = [enc(y) for y in out]
+                # the caller goes on reading after the exception: a generator that raised is finished
+                try:
+                    y = next(it)
+                    obs["after_err"] = "value"
+                except StopIteration:
+                    obs["after_err"] = "stop"
+                except Exception as e2:
+                    obs["after_err"] = err_kind(e2)
             obs["err"] = err_kind(e)
             obs["stage"] = stage
             obs["msg"] = str(e)[:80]
@@ -422,10 +549,8 @@ def impl(c):
             s2, out2, stage2 = {}, [], "call"
             try:
                 obs["dendict_after"] = [[k, _coef_obs(v)] for k, v in sorted(filt.dendict.items())]
-                kw2 = {"zero": val(sec["zero"])}
-                if sec.get("mem") is not None:
-                    kw2["memory"] = [val(v) for v in sec["mem"]["vals"]]
-                res2 = filt(xin2, **kw2)
+                args2, kw2 = _call_kwargs(c, sec)
+                res2 = filt(xin2, *args2, **kw2)
                 stage2 = "iter"
                 for y in res2:
                     out2.append(y)
@@ -465,17 +590,19 @@ def request(c):
         sec = c["second"]
         r["second"] = {"zero": exact(sec["zero"]), "xs": [exact(x) for x in sec["xs"]]}
         if sec.get("mem") is not None:
-            r["second"]["mem"] = {"kind": "iter", "vals": [exact(v) for v in sec["mem"]["vals"]]}
+            r["second"]["mem"] = _mem_req(sec["mem"])
     if c["entry"] == "expr":
         r["tree"] = _tree_req(c, c["tree"], n)
     else:
         r["num"] = [[k, _coef_req(c, v, n)] for k, v in c["num"]]
         r["den"] = [[k, _coef_req(c, v, n)] for k, v in c["den"]]
-        for f in ("numdiv", "dendiv"):
+        for f in ("numdiv", "dendiv", "setden0"):
             if c.get(f) is not None:
                 r[f] = _coef_req(c, c[f], n)
+        if c.get("numpdiv") is not None:
+            r["numpdiv"] = [[k, _coef_req(c, v, n)] for k, v in c["numpdiv"]]
     if c.get("mem") is not None:
-        r["mem"] = {"kind": "iter", "vals": [exact(v) for v in c["mem"]["vals"]]}
+        r["mem"] = _mem_req(c["mem"])
     return r
 
 
@@ -493,8 +620,36 @@ def _d13(c, io, ref):
             and len(ref["out"]) < len(c["xs"]))
 
 
+_TOL = [0]            # tolerance of the case under comparison (0 = exact; floats injected by the impl: 1e-6)
+
+
 def _same(xs, ys):
-    return len(xs) == len(ys) and all(dec(a) == dec(b) for a, b in zip(xs, ys))
+    return len(xs) == len(ys) and all(common.close(dec(a), dec(b), _TOL[0]) for a, b in zip(xs, ys))
+
+
+def _raising(c):
+    """(source index, number of items before it raises) of the sources that raise instead of ending"""
+    return [(i, len(d["vals"])) for i, d in enumerate(c.get("srcs", [])) if d["kind"] == "raising"]
+
+
+D22_SIG = "call:Poly/one-term-Poly-with-Stream-coefficient:the-Stream-is-shared-by-all-quotient-coefficients(no-thub)"
+
+
+def _d22(c):
+    """Poly(num) / Poly({d: Stream}) with at least two stored numerator terms"""
+    pd_ = c.get("numpdiv")
+    if not pd_ or c["entry"] != "call":
+        return False
+    stored = {}
+    for k, v in pd_:
+        stored[k] = v
+    stored = {k: v for k, v in stored.items() if is_src(v) or val(v) != 0}
+    if len(stored) != 1 or not is_src(list(stored.values())[0]):
+        return False
+    nst = {}
+    for k, v in c["num"]:
+        nst[k] = v
+    return sum(1 for v in nst.values() if is_src(v) or val(v) != 0) >= 2
 
 
 def _pure_d13(probs):
@@ -510,7 +665,11 @@ def _ckey(c):
 
 
 def compare(c, io, drv):
-    probs = _compare(c, io, drv)
+    _TOL[0] = 1e-6 if floaty(c) else 0
+    try:
+        probs = _compare(c, io, drv)
+    finally:
+        _TOL[0] = 0
     if probs and len(_VERDICT) < 200000:
         _VERDICT[_ckey(c)] = _pure_d13(probs)
     if c.get("_noD13") and _pure_d13(probs):
@@ -548,10 +707,9 @@ def _compare2(c, io, drv):
                                 _obs_show(s2), len(io.get("out", [])), _obs_show(p2))))
         if not ok_model:
             out.append(("model", "second call of the same filter object: impl %s, model %s" % (_obs_show(s2), _obs_show(m2))))
-    elif not ok_model and not (model.get("gainpath") and m2.get("err") == "ZeroDivisionError"):
-        # (impl == spec != model is accepted only against the modelled defect D16: that is the repaired code)
+    elif not ok_model:
         out.append(("model", "second call of the same filter object: impl %s, model %s" % (_obs_show(s2), _obs_show(m2))))
-    if not model.get("gainpath") and "dendict_after" in io:
+    if "dendict_after" in io:
         if [k for k, _ in io["dendict_after"]] != [k for k, _ in io["dendict"]]:
             out.append(("model", "the first call changed the powers of denpoly: %r -> %r" % (io["dendict"], io["dendict_after"])))
     if ok_spec and "out" in s2:
@@ -640,7 +798,24 @@ def _compare(c, io, drv):
             io["ir"], model["ir"], io.get("src"))))
     # --- outputs ------------------------------------------------------------------------------
     got = io["out"]
-    if "err" in io:
+    rz = _raising(c)
+    L0 = len(model["out"])
+    used0 = _used_sources(c, io, model) | ({i for i, d in enumerate(c.get("srcs", [])) if d.get("as", "stream") in UNCOUNTED}
+                                            if c["entry"] != "expr" else set())
+    # a raising source must raise when it is what ends the output (no other used source ends there too)
+    must_raise = [i for i, ln in rz if i in used0 and ln == L0 and L0 < n and not any(
+        j != i and j in used0 and src_len(d) == L0 for j, d in enumerate(c.get("srcs", [])))]
+    if "err" in io and io["err"] == "ValueError" and "coefficient source failed" in io.get("msg", "") and rz:
+        # (a) an element operation of a coefficient stream raised in the middle
+        if not (_same(got, model["out"]) and L0 < n and any(ln == L0 for _, ln in rz)):
+            out.append(("model", "a coefficient source raised after %d outputs (%r); the model (the source as a stream of "
+                                 "%r items) yields %d outputs %r" % (len(got), got[:8], [ln for _, ln in rz], L0, model["out"][:8])))
+            out.append(("spec", "a coefficient source raised after %d outputs, the outputs before that point are not the "
+                                "%d outputs of the difference equation" % (len(got), L0)))
+        elif io.get("after_err") != "stop":
+            out.append(("model", "after the exception of a coefficient source the caller read on and got %s: the generated "
+                                 "generator is finished by the exception (next() must raise StopIteration)" % io.get("after_err")))
+    elif "err" in io:
         # died while iterating
         if _d13(c, io, model) and _same(got, model["out"]):
             out.append(("model", "RuntimeError (PEP 479) where the model's generator ends: a coefficient stream ended "
@@ -661,6 +836,9 @@ def _compare(c, io, drv):
         d = _diff(got, spec["out"])
         if d:
             out.append(("spec", "output violates the time-varying difference equation: " + d))
+        if must_raise and not d:
+            out.append(("model", "coefficient source %d raises ValueError at its item %d, which output %d needs, but the "
+                                 "output just ended: the exception was swallowed" % (must_raise[0], L0, L0)))
     # --- reads: once per output, per source --------------------------------------------------------
     used = _used_sources(c, io, model)
     for k, row in enumerate(io.get("trace", []), 1):
@@ -687,7 +865,8 @@ def _compare(c, io, drv):
             want = _model_positions(c, model)
             if want is not None and want != io["pulls"]:
                 out.append(("model", "final pull counts %r, model iterator positions %r" % (io["pulls"], want)))
-    if io.get("leaks"):
+    if io.get("leaks") and not any(d.get("as") == "thub" for d in c.get("srcs", [])):
+        # (a hub the CASE itself hands in as a coefficient may legitimately stay unused: all-zero filter, replaced gain)
         out.append(("model", "%d MemoryLeakWarning(s): a StreamTeeHub was built with more copies than were used "
                              "(model: hub size = number of uses)" % io["leaks"]))
     return out
@@ -698,20 +877,35 @@ def _diff(got, want):
         return "length %d instead of %d (got %r, want %r)" % (len(got), len(want), got[:8], want[:8])
     for i, (g, w) in enumerate(zip(got, want)):
         g, w = dec(g), dec(w)
-        if isinstance(g, float) or g != w:
+        if isinstance(g, float) or not common.close(g, w, _TOL[0]):
             return "y[%d] = %s instead of %s" % (i, g, w)
     return None
 
 
 def _used_sources(c, io, model):
-    """indices of the sources that are coefficients of the filter the loop is generated from"""
+    """indices of the (counting) sources that are coefficients of the filter the loop is generated from"""
+    return {i for i in _used_sources_all(c, io, model)
+            if c["srcs"][i].get("as", "stream") not in UNCOUNTED}
+
+
+def _used_sources_all(c, io, model):
     if model.get("ir", {}).get("kind") == "const":
         return set()          # the all-zero filter: `for unused in seq: yield zero` reads no coefficient
     if c["entry"] == "expr":
         # a Stream multiplied into a term that the arithmetic dropped (`f * 0`) is no coefficient any
         # more: such a source is never read at all; every other one is read once per output
         return {i for i, p in enumerate(io.get("pulls", [])) if p != 0}
+    dn = dict((k, v) for k, v in c["den"])
     used = {v["src"] for _, v in c["num"] + c["den"] if is_src(v)}
+    if c.get("setden0") is not None:
+        # the assigned gain replaces the delay-0 coefficient of the normalised denominator
+        stored = [k for k, v in dn.items() if is_src(v) or val(v) != 0]
+        if stored and is_src(dn[min(stored)]):
+            used.discard(dn[min(stored)]["src"])
+        if is_src(c["setden0"]):
+            used.add(c["setden0"]["src"])
+    if c.get("numpdiv") is not None and any(is_src(v) or val(v) != 0 for _, v in c["num"]):
+        used |= {v["src"] for _, v in c["numpdiv"] if is_src(v)}     # (the empty dividend has no coefficient to divide)
     for f, side in (("numdiv", "num"), ("dendiv", "den")):
         # dividing the empty polynomial asks for no copy of the divisor (thub(other, 0))
         if c.get(f) is not None and any(is_src(v) or val(v) != 0 for _, v in c[side]):
@@ -731,7 +925,8 @@ def _model_positions(c, model):
     """final pulls per source predicted by the model's iterator positions (entry call, no gain path)"""
     # delays after normalisation: the model lists [delay, consumed] in ascending delay; the case lists
     # sources by raw power; both ascending in the same order
-    if c.get("numdiv") is not None or c.get("dendiv") is not None:
+    if (c.get("numdiv") is not None or c.get("dendiv") is not None or c.get("numpdiv") is not None
+            or c.get("setden0") is not None or any(d.get("as", "stream") in UNCOUNTED for d in c.get("srcs", []))):
         return None
     pos = {}
     nsrc = sorted((k, v["src"]) for k, v in c["num"] if is_src(v))
@@ -753,8 +948,22 @@ def nontrivial(c, io):
 # classification (known findings)
 # ---------------------------------------------------------------------------------------------
 def classify(c, io, drv):
+    _TOL[0] = 1e-6 if floaty(c) else 0
+    try:
+        return _classify(c, io, drv)
+    finally:
+        _TOL[0] = 0
+
+
+def _classify(c, io, drv):
     if c["entry"] == "call2":
         return _classify2(c, io, drv)
+    if _d22(c) and io.get("stage", "iter") == "iter" and "out" in drv.get("spec", {}) and io.get("ir") == drv.get("model", {}).get("ir"):
+        # the generated source is right, one Stream object sits behind several loop arguments
+        pd_src = [v["src"] for _, v in c["numpdiv"] if is_src(v)][0]
+        k = len(io.get("out", []))
+        if io.get("pulls", [0] * (pd_src + 1))[pd_src] > k:
+            return D22_SIG
     model, spec = drv.get("model", {}), drv.get("spec", {})
     e = c["entry"]
     if "err" in io and io.get("stage") != "iter":
@@ -879,6 +1088,91 @@ def _call_case(rng, max_len, p_stream=0.45, malformed=False):
     return case
 
 
+SAFE_ROUTES = ("dict", "linear", "list", "poly")     # no arithmetic on the coefficient object itself
+
+
+def _decorate(rng, c, history=False):
+    """dimensions of the call the first rounds never drew: memory kinds (short, longer, callable, endless
+    generator, tuple / deque / Stream …), call shapes (positional, keyword, omitted), spellings of the zero
+    value (Fraction / int / float / bool), kinds of coefficient iterables (generator, list, tuple, thub,
+    ControlStream), a coefficient source that RAISES in the middle, an assigned gain on the built object,
+    a numerator divided by a Poly"""
+    n = len(c["xs"])
+    lm = max([k for k, _ in c["den"]]) - min([k for k, _ in c["den"]])
+    if rng.random() < 0.35:
+        c["mem"] = _memory(rng, lm, "frac")
+    if history and rng.random() < 0.3:
+        c["second"]["mem"] = _memory(rng, lm, "frac")
+    if rng.random() < 0.1:
+        c["zero"] = "1/1"
+    zero_is_0 = val(c["zero"]) == 0 and (not history or val(c["second"]["zero"]) == 0)
+    r = rng.random()
+    c["shape"] = ("kw" if r < 0.5 else "pos" if r < 0.65 else "posmem" if r < 0.75 else "kwnone" if r < 0.85
+                  else "nozero" if zero_is_0 else "pos")
+    r = rng.random()
+    c["zspell"] = "frac" if r < 0.5 else "int" if r < 0.7 else "bool" if r < 0.88 else "float"
+    if history:
+        return c
+    # route variety for plain shapes
+    if c["route"] == "dict" and c.get("numdiv") is None and c.get("dendiv") is None:
+        ks = [k for k, _ in c["num"] + c["den"]]
+        dense_ok = (min(k for k, _ in c["den"]) == 0 and all(k >= 0 for k in ks) and len(set(k for k, _ in c["num"])) == len(c["num"])
+                    and len(set(k for k, _ in c["den"])) == len(c["den"]))
+        r = rng.random()
+        if r < 0.12 and dense_ok:
+            c["route"] = "list"
+        elif r < 0.24:
+            c["route"] = "poly"
+    plain = c.get("numdiv") is None and c.get("dendiv") is None
+    # kinds of coefficient iterables
+    if c["route"] in SAFE_ROUTES and plain:
+        stored = [k for k, v in c["den"] if is_src(v) or val(v) != 0]
+        gain_src = None
+        if stored:
+            g = dict((k, v) for k, v in c["den"])[min(stored)]
+            gain_src = g["src"] if is_src(g) else None
+        for i, d in enumerate(c["srcs"]):
+            if rng.random() < 0.45:
+                if i == gain_src:
+                    d["as"] = "thub"
+                else:
+                    kinds = ["gen", "thub", "list", "tuple"] + (["control"] if d["kind"] == "periodic" and len(d["vals"]) == 1 else [])
+                    d["as"] = rng.choice(kinds)
+    # a coefficient source that raises instead of ending
+    fin = [i for i, d in enumerate(c["srcs"]) if d["kind"] == "finite" and d.get("as", "stream") not in UNCOUNTED]
+    if fin and rng.random() < 0.12:
+        i = rng.choice(fin)
+        d = c["srcs"][i]
+        if len(d["vals"]) >= n and n > 0 and rng.random() < 0.7:
+            d["vals"] = d["vals"][:rng.randint(0, n - 1)]
+        d["kind"] = "raising"
+    # the gain assigned on the built object
+    if plain and c["route"] in ("dict", "linear", "zexpr", "zmul") and rng.random() < 0.07:
+        r = rng.random()
+        if r < 0.5:
+            c["setden0"] = 0
+        elif r < 0.75:
+            c["setden0"] = rng.choice([1, -1, 2, -3])
+        else:
+            c["srcs"].append(_source(rng, n, GVAL_POOL, early=False))
+            c["setden0"] = {"src": len(c["srcs"]) - 1}
+    # the numerator divided by a Poly
+    elif (plain and c["route"] in ("dict", "linear") and rng.random() < 0.12
+          and all(d.get("as", "stream") in ("stream", "thub") for d in c["srcs"]) and not _raising(c)):
+        r = rng.random()
+        d = rng.choice([0, 0, 1, -1])
+        if r < 0.15:
+            c["numpdiv"] = rng.choice([[], [[d, 0]]])
+        elif r < 0.3:
+            c["numpdiv"] = [[d, 2], [d + 1, 1]]
+        elif r < 0.65:
+            c["numpdiv"] = [[d, rng.choice([2, -1, 1, -2, 4])]]       # quotients of integers that are exact floats
+        else:
+            c["srcs"].append(_source(rng, n, GVAL_POOL, early=False))
+            c["numpdiv"] = [[d, {"src": len(c["srcs"]) - 1}]]
+    return c
+
+
 def _call2_case(rng, max_len):
     """a two-call history: a call case whose sources are sized against the whole history, the input
     split into the inputs of the two calls"""
@@ -894,6 +1188,24 @@ def _call2_case(rng, max_len):
         mem2 = {"vals": [_sample(rng) for _ in range(lm + rng.choice([0, 0, 1]))]}
     return dict(c, entry="call2", xs=xs[:n1],
                 second={"xs": xs[n1:], "zero": rng.choice(["0/1", "0/1", c["zero"], "7/1"]), "mem": mem2})
+
+
+def _call2_refused(rng, max_len):
+    """a history whose FIRST call raises (a numerator term below the lowest denominator power: ValueError
+    "Non-causal filter") — a failed call must leave no trace: the second call raises the same way and no
+    source has been read"""
+    c = _call2_case(rng, max_len)
+    lo = min(k for k, _ in c["den"] if is_src(_) or _ != 0) if any(is_src(v) or v != 0 for _, v in c["den"]) else 0
+    d = rng.choice([1, 2])
+    if c["num"] and rng.random() < 0.7:
+        sh = min(k for k, _ in c["num"]) - (lo - d)
+        c["num"] = [[k - sh, v] for k, v in c["num"]]
+        if not any(is_src(v) or v != 0 for k, v in c["num"] if k < lo):
+            c["num"].append([lo - d, rng.choice([1, -2, 3])])
+    else:
+        c["num"] = c["num"] + [[lo - d, rng.choice([1, -2, 3])]]
+    c["route"] = rng.choice(["dict", "dict", "linear", "poly"])
+    return c
 
 
 def _num_tree(rng, srcs, n, pool, allow_const=True):
@@ -962,8 +1274,20 @@ def _expr_case(rng, max_len):
     n = rng.choice([0, 1, 2, 3, 5, rng.randint(0, max_len)])
     srcs = []
     tree = _filter_tree(rng, srcs, n, rng.choice([1, 1, 2, 2, 3]))
-    return {"entry": "expr", "tree": tree, "srcs": srcs, "mem": None,
-            "zero": rng.choice(["0/1", "0/1", "0/1", "7/1"]), "xs": [_sample(rng) for _ in range(n)]}
+    c = {"entry": "expr", "tree": tree, "srcs": srcs, "mem": None,
+         "zero": rng.choice(["0/1", "0/1", "0/1", "7/1"]), "xs": [_sample(rng) for _ in range(n)]}
+    if rng.random() < 0.3:
+        # call shape / spelling of the zero value / a leaf source that raises in the middle
+        r = rng.random()
+        c["shape"] = "pos" if r < 0.4 else "kwnone" if r < 0.6 else "nozero" if val(c["zero"]) == 0 else "posmem"
+        c["zspell"] = rng.choice(["frac", "int", "bool", "float"])
+        fin = [d for d in srcs if d["kind"] == "finite"]
+        if fin and rng.random() < 0.4:
+            d = rng.choice(fin)
+            if len(d["vals"]) >= n and n > 0:
+                d["vals"] = d["vals"][:rng.randint(0, n - 1)]
+            d["kind"] = "raising"
+    return c
 
 
 def generate(rng, tier, scale=1):
@@ -972,14 +1296,20 @@ def generate(rng, tier, scale=1):
     max_len = 12 if quick else 40
     if scale == 1:
         cases.extend(_fixed_cases())
-    for _ in range((1500 if quick else 30000) * scale):
+    for _ in range((900 if quick else 18000) * scale):
         cases.append(_call_case(rng, max_len))
+    for _ in range((900 if quick else 18000) * scale):
+        cases.append(_decorate(rng, _call_case(rng, max_len)))
     for _ in range((150 if quick else 2000) * scale):
         cases.append(_call_case(rng, max_len, malformed=True))
     for _ in range((1200 if quick else 20000) * scale):
         cases.append(_expr_case(rng, 8 if quick else 16))
-    for _ in range((600 if quick else 10000) * scale):
+    for _ in range((400 if quick else 7000) * scale):
         cases.append(_call2_case(rng, max_len))
+    for _ in range((250 if quick else 4000) * scale):
+        cases.append(_decorate(rng, _call2_case(rng, max_len), history=True))
+    for _ in range((60 if quick else 800) * scale):
+        cases.append(_call2_refused(rng, max_len))
     return cases
 
 
@@ -1032,7 +1362,29 @@ def tally(eng, c, io):
         eng.count("source_kind", "periodic(p=%d)" % len(d["vals"]) if ln is None else (
             "finite:empty" if ln == 0 else "finite:shorter" if ln < n else "finite:equal" if ln == n else "finite:longer"))
     eng.count("zero", "zero=0" if val(c["zero"]) == 0 else "zero!=0")
-    eng.count("memory", "none" if c.get("mem") is None else "list")
+    m = _mem_norm(c.get("mem"))
+    if m is None:
+        eng.count("memory", "none")
+    else:
+        lm_ = (max([k for k, _ in c["den"]]) - min([k for k, _ in c["den"]])) if c.get("den") else 0
+        if m["kind"] == "iter":
+            ln = len(m["vals"])
+            eng.count("memory", "iterable(%s):%s" % (m.get("as", "list"), "short(left-padded)" if ln < lm_ else "exact" if ln == lm_ else "longer"))
+        elif m["kind"] == "gen":
+            eng.count("memory", "endless-generator")
+        else:
+            eng.count("memory", "callable(%s)" % m.get("form"))
+    eng.count("call_shape", c.get("shape", "kw"))
+    eng.count("zero_spelling", "%s(%s)" % (c.get("zspell", "frac"), type(_zero_obj(c)).__name__))
+    for d in c.get("srcs", []):
+        eng.count("coefficient_iterable_kind", d.get("as", "stream"))
+    if _raising(c):
+        eng.count("raising_source", "impl-raised-mid-stream:next-after=%s" % io.get("after_err") if io.get("err") == "ValueError" and io.get("stage") == "iter"
+                  else "not-reached(other-end-first)")
+    if c.get("setden0") is not None:
+        eng.count("assigned_gain", "deleted(0)" if c["setden0"] == 0 else "stream" if is_src(c["setden0"]) else "constant")
+    if c.get("numpdiv") is not None:
+        eng.count("poly_div_poly", "%d-term-divisor%s" % (len(c["numpdiv"]), ":stream" if any(is_src(v) for _, v in c["numpdiv"]) else ""))
     if "err" in io:
         eng.count("impl_error", "%s@%s" % (io["err"], io.get("stage")))
         if io.get("stage") != "iter":
@@ -1070,15 +1422,17 @@ def _renumber(c):
     """drop the sources no coefficient refers to"""
     if c["entry"] not in ("call", "call2"):
         return c
-    used = sorted({v["src"] for _, v in c["num"] + c["den"] if is_src(v)}
-                  | {c[f]["src"] for f in ("numdiv", "dendiv") if c.get(f) is not None})
+    used = sorted({v["src"] for _, v in c["num"] + c["den"] + (c.get("numpdiv") or []) if is_src(v)}
+                  | {c[f]["src"] for f in ("numdiv", "dendiv", "setden0") if is_src(c.get(f))})
     if used == list(range(len(c["srcs"]))):
         return c
     ren = {old: new for new, old in enumerate(used)}
     f = lambda lst: [[k, {"src": ren[v["src"]]} if is_src(v) else v] for k, v in lst]
     out = dict(c, num=f(c["num"]), den=f(c["den"]), srcs=[c["srcs"][i] for i in used])
-    for g in ("numdiv", "dendiv"):
-        if c.get(g) is not None:
+    if c.get("numpdiv") is not None:
+        out["numpdiv"] = f(c["numpdiv"])
+    for g in ("numdiv", "dendiv", "setden0"):
+        if is_src(c.get(g)):
             out[g] = {"src": ren[c[g]["src"]]}
     return out
 
